@@ -1371,11 +1371,13 @@ namespace awkward {
 
     ContentPtrVec contents;
     for (auto ptr : tocarry) {
-      contents.push_back(std::make_shared<IndexedArray64>(
+      IndexedArray64 indexed(
         Identities::none(),
         util::Parameters(),
         Index64(ptr, 0, combinationslen, kernel::lib::cpu),   // DERIVE
-        shallow_copy()));
+        shallow_copy());
+      // an IndexedArray directly over an option-type or indexed array is not a valid layout
+      contents.push_back(indexed.simplify_optiontype());
     }
     return std::make_shared<RecordArray>(Identities::none(),
                                          parameters,
